@@ -1,6 +1,7 @@
 package spine
 
 import (
+	"errors"
 	"sync"
 	"sync/atomic"
 	"time"
@@ -87,6 +88,13 @@ func (c *HeartbeatManager) StartHeartbeat() error {
 	timeout, err := c.heartBeatTimeout.GetTimeDuration()
 	if err != nil {
 		return err
+	}
+
+	c.mux.Lock()
+	hasFeature := c.localFeature != nil
+	c.mux.Unlock()
+	if !hasFeature {
+		return errors.New("heartbeat: no local DeviceDiagnosis server feature with heartbeat data available")
 	}
 
 	// stopping, replacing the stop channel and starting the new heartbeat has to be one step,
